@@ -1026,6 +1026,32 @@ class _PositiveIf(ast.NodeTransformer):
         return n
 
 
+# ------------------------------------------------------------------------------------------------ 2i. named results
+def _return_temps(tree, log):
+    """N = E ; return N   ->   return E   (adjacent statements, N a plain local): the name is dead after the return"""
+    def fix(blk):
+        i = 0
+        while i < len(blk) - 1:
+            a, r = blk[i], blk[i + 1]
+            if isinstance(a, ast.Assign) and len(a.targets) == 1 and isinstance(a.targets[0], ast.Name) and \
+                    isinstance(r, ast.Return) and isinstance(r.value, ast.Name) and r.value.id == a.targets[0].id:
+                blk[i:i + 2] = [ast.copy_location(ast.Return(value=a.value), a)]
+                log.append(("-", "named result `%s` merged into its return" % a.targets[0].id))
+                continue
+            i += 1
+        for st in blk:
+            for fld in ("body", "orelse", "finalbody"):
+                sub = getattr(st, fld, None)
+                if isinstance(sub, list) and sub and isinstance(sub[0], ast.stmt):
+                    fix(sub)
+            for h in getattr(st, "handlers", []) or []:
+                fix(h.body)
+    for f in [n for n in ast.walk(tree) if isinstance(n, ast.FunctionDef)]:
+        if any(isinstance(x, (ast.Global, ast.Nonlocal)) for x in ast.walk(f)):
+            continue
+        fix(f.body)
+
+
 def normalise(tree, modname, inventory):
     log = []
     inl = _Inliner(tree, modname, inventory, log)
@@ -1034,6 +1060,7 @@ def normalise(tree, modname, inventory):
     _OperatorCalls(tree, log).visit(tree)
     _ConstRight(log).visit(tree)
     _PositiveIf(log).visit(tree)
+    _return_temps(tree, log)
     _Enum(log).visit(tree)
     _Zip(log).visit(tree)
     _Aug(log).visit(tree)
